@@ -760,7 +760,7 @@ pub fn minimise(
                     log.pop();
                 }
                 let better = log.len() < best.len()
-                    || (log.len() == best.len() && log.iter().sum::<u64>() < best.iter().sum::<u64>())
+                    || (log.len() == best.len() && log.iter().map(|&x| x as u128).sum::<u128>() < best.iter().map(|&x| x as u128).sum::<u128>())
                     || (log.len() == best.len() && log < *best);
                 if better {
                     *best = log;
